@@ -61,6 +61,8 @@ def req(ci, i, version="1.1"):
 
 def to_scenario(case):
     beh = dict(SHAPES[case["shape"]], status="200 OK")
+    if case.get("fw_close_raises") and beh["mode"] == "fw":
+        beh["fw"] = dict(beh["fw"], close_raises=True)     # the wrapped file's own close() fails (an application failure, too)
     if case.get("raise_at"):
         beh["raise_at"] = case["raise_at"]
         beh["exc"] = case.get("exc", "ValueError")
@@ -80,7 +82,11 @@ def to_scenario(case):
         victim["faults"] = {"send:%d" % case["send_fault"]: case.get("send_errno", "EPIPE")}
     by = {"segments": [req(1, 0), req(1, 1)], "waits": [None, "quiet"]}
     ok = {"status": "200 OK", "mode": "list", "chunks": ["ok"], "declared_cl": 2}
-    return {"adj": adj, "gran": case.get("gran", "sync"), "apps": {"0": [beh, ok], "*": [ok]}, "sndbuf": case.get("sndbuf", 1 << 20), "infinite_timeouts": True,
+    second = ok
+    if case.get("second") is not None:
+        # the pipelined second request of the victim connection gets a behaviour shape of its own (two responses queued at once)
+        second = dict(SHAPES[case["second"]], status="200 OK")
+    return {"adj": adj, "gran": case.get("gran", "sync"), "apps": {"0": [beh, second], "*": [ok]}, "sndbuf": case.get("sndbuf", 1 << 20), "infinite_timeouts": True,
             "conns": [victim, by]}, beh
 
 
@@ -92,6 +98,8 @@ def validate(case):
         raise C.CaseInvalid("raise_at")
     if case.get("exc", "ValueError") not in EXCS or case.get("gran", "sync") not in ("sync", "line") or case.get("workers", 1) not in (1, 2):
         raise C.CaseInvalid("exc")
+    if case.get("second") is not None and (not isinstance(case["second"], int) or not (0 <= case["second"] < len(SHAPES)) or case.get("raise_at")):
+        raise C.CaseInvalid("second")
     for k in ("reset_after_rx", "send_fault", "capacity"):
         if case.get(k) is not None and (not isinstance(case[k], int) or case[k] < (0 if k == "send_fault" else 1)):
             raise C.CaseInvalid(k)
@@ -215,6 +223,14 @@ def disconnect_cases():
         for n in sorted(set([1, 10, 50, 100, 150, 200, max(1, total - 1)])):
             yield {"shape": si, "reset_after_rx": n, "capacity": 40, "drain": 16}
             yield {"shape": si, "reset_after_rx": n, "capacity": 40, "drain": 16, "workers": 2}
+    # two responses queued on one connection when it is torn down (the second request is pipelined), wrapped files whose close() fails
+    for si in (8, 9, 3):
+        for sj in (8, 9, 3):
+            for cr in (False, True):
+                for n in (1, 10, 60, 200, 400):
+                    yield {"shape": si, "second": sj, "fw_close_raises": cr, "reset_after_rx": n, "capacity": 40, "drain": 16}
+                for k in (0, 1, 2, 4, 8):
+                    yield {"shape": si, "second": sj, "fw_close_raises": cr, "send_fault": k, "send_errno": "EPIPE", "capacity": 40, "drain": 16}
 
 
 def early_cases():
@@ -234,6 +250,9 @@ def case_strategy():
         if kind == "early":
             case.update(early=draw(st.sampled_from(["eof", "reset"])), lookahead=draw(st.sampled_from([1, 2])))
             return case
+        if kind != "exc" and draw(st.booleans()):
+            case["second"] = draw(st.integers(0, len(SHAPES) - 1))
+            case["fw_close_raises"] = draw(st.booleans())
         if kind == "exc":
             case.update(raise_at=draw(st.sampled_from(fault_points(SHAPES[si]))), exc=draw(st.sampled_from(EXCS)), expose=draw(st.booleans()),
                         log_socket_errors=draw(st.booleans()))
